@@ -163,32 +163,65 @@ Proof.
   - rewrite R, Eo. reflexivity.
 Qed.
 
-Lemma find_window_first_full : forall s gc ty d ns path, wf s -> flatten s ns = Ok path ->
-  find_window s gc ty d ns = Ok (opt_list (first_match (cont s) ty d path)).
+Lemma find_window_general_full : forall s cons ty d ns path, wf s -> flatten s ns = Ok path ->
+  find_window s cons ty d ns = Ok (if consistent s cons ty d then opt_list (first_match (cont s) ty d path) else []).
 Proof.
-  intros s gc ty d ns path Hwf F. apply find_window_first; [assumption| |eapply flatten_NoDup; eauto].
+  intros s cons ty d ns path Hwf F. apply find_window_general; [assumption| |eapply flatten_NoDup; eauto].
   rewrite flattenB_flatten_p; assumption.
 Qed.
+Lemma find_window_first_full : forall s cons ty d ns path, wf s -> consistent s cons ty d = true -> flatten s ns = Ok path ->
+  find_window s cons ty d ns = Ok (opt_list (first_match (cont s) ty d path)).
+Proof. intros s cons ty d ns path Hwf CS F. rewrite (find_window_general_full _ _ _ _ _ _ Hwf F), CS. reflexivity. Qed.
 
-Lemma three_agree_p : forall s gc ty d ns path, wf s -> flatten s ns = Ok path ->
+Lemma three_agree_p : forall s cons ty d ns path, wf s -> is_calty s ty = false -> consistent s cons ty d = true ->
+  flatten s ns = Ok path ->
   find_rank s ty d ns = Ok (first_match (cont s) ty d path) /\
-  find_window s gc ty d ns = Ok (opt_list (first_match (cont s) ty d path)) /\
-  find_legacy s gc ty d ns = Ok (opt_list (first_match (cont s) ty d path)).
+  find_get s ty d ns = Ok (first_match (cont s) ty d path) /\
+  find_window s cons ty d ns = Ok (opt_list (first_match (cont s) ty d path)) /\
+  find_legacy s cons ty d ns = Ok (opt_list (first_match (cont s) ty d path)).
 Proof.
-  intros. split; [apply find_rank_first; assumption|]. split; [apply find_window_first_full; assumption|].
-  apply find_legacy_first; assumption.
+  intros. split; [apply find_rank_first; assumption|]. split; [apply find_get_first; assumption|].
+  split; [apply find_window_first_full; assumption|]. apply find_legacy_first; assumption.
 Qed.
 
-Lemma three_agree_hist_p : forall ops gc ty d ns, forallb (exists_c (run init ops)) ns = true ->
+Lemma three_agree_hist_p : forall ops cons ty d ns, is_calty (run init ops) ty = false ->
+  consistent (run init ops) cons ty d = true -> forallb (exists_c (run init ops)) ns = true ->
   exists path, flatten (run init ops) ns = Ok path /\
     find_rank (run init ops) ty d ns = Ok (first_match (cont (run init ops)) ty d path) /\
-    find_window (run init ops) gc ty d ns = Ok (opt_list (first_match (cont (run init ops)) ty d path)) /\
-    find_legacy (run init ops) gc ty d ns = Ok (opt_list (first_match (cont (run init ops)) ty d path)).
+    find_get (run init ops) ty d ns = Ok (first_match (cont (run init ops)) ty d path) /\
+    find_window (run init ops) cons ty d ns = Ok (opt_list (first_match (cont (run init ops)) ty d path)) /\
+    find_legacy (run init ops) cons ty d ns = Ok (opt_list (first_match (cont (run init ops)) ty d path)).
 Proof.
-  intros ops gc ty d ns Ex. pose proof (run_wf ops init init_wf) as Hwf.
+  intros ops cons ty d ns NT CS Ex. pose proof (run_wf ops init init_wf) as Hwf.
   destruct Hwf as [A R] eqn:Keep. clear Keep.
   destruct (expand_ok _ ns A Ex) as [L E].
   exists (dedup (leaves (run init ops) L)).
   assert (F : flatten (run init ops) ns = Ok (dedup (leaves (run init ops) L))) by (unfold flatten; rewrite E; reflexivity).
-  split; [exact F|]. apply three_agree_p; [exact (conj A R)|exact F].
+  split; [exact F|]. apply three_agree_p; [exact (conj A R)|assumption|assumption|exact F].
 Qed.
+
+(* calibration dataset types, any search path (CALIBRATION collections included), after any history:
+   findDataset without timespan answers for the path without the CALIBRATION collections; Butler.get (unbounded
+   timespan) and the new query system answer for the whole path; the legacy query refuses an explicitly named
+   CALIBRATION collection that survives the pruning and otherwise answers for the whole path *)
+Lemma calibration_search_p : forall ops cons ty d ns, consistent (run init ops) cons ty d = true ->
+  forallb (exists_c (run init ops)) ns = true ->
+  exists path, flatten (run init ops) ns = Ok path /\
+    find_rank (run init ops) ty d ns = Ok (first_match (cont (run init ops)) ty d (skip_calib (run init ops) path)) /\
+    find_get (run init ops) ty d ns = Ok (first_match (cont (run init ops)) ty d path) /\
+    find_window (run init ops) cons ty d ns = Ok (opt_list (first_match (cont (run init ops)) ty d path)) /\
+    find_legacy (run init ops) cons ty d ns =
+      if existsb (fun c => is_calib (run init ops) c && memN c ns) (prune (run init ops) cons ty path) then Err ENotImpl
+      else Ok (opt_list (first_match (cont (run init ops)) ty d path)).
+Proof.
+  intros ops cons ty d ns CS Ex. pose proof (run_wf ops init init_wf) as Hwf.
+  destruct Hwf as [A R] eqn:Keep. clear Keep.
+  destruct (expand_ok _ ns A Ex) as [L E].
+  exists (dedup (leaves (run init ops) L)).
+  assert (F : flatten (run init ops) ns = Ok (dedup (leaves (run init ops) L))) by (unfold flatten; rewrite E; reflexivity).
+  pose proof (conj A R) as Hwf2.
+  split; [exact F|]. split; [apply find_rank_skips; assumption|]. split; [apply find_get_first; assumption|].
+  split; [apply find_window_first_full; assumption|].
+  rewrite (find_legacy_general _ _ _ _ _ _ Hwf2 F), CS. reflexivity.
+Qed.
+
